@@ -608,10 +608,15 @@ func sameSet(a, b map[Path]bool) bool {
 
 // refine adds the facts implied by cond being `truth`.
 func refine(st State, cond ssa.Value, truth bool) {
+	// a one-line accessor of a helper record stands for what it returns: `l.isOpen()` for
+	// `l.ch != nil`, `l.cause()` for `l.err` (facts are keyed by type and field, so the
+	// callee's own expression names the same path)
+	cond = throughAccessor(cond)
 	x, eq, ok := ir.NilCompare(cond)
 	if !ok {
 		return
 	}
+	x = throughAccessor(x)
 	p, okp := LoadPath(x)
 	if !okp {
 		return
@@ -624,6 +629,47 @@ func refine(st State, cond ssa.Value, truth bool) {
 	} else {
 		st.add(NonNil, p)
 	}
+}
+
+// throughAccessor: v is a call of an unexported, straight-line, effect-free
+// method with no arguments that returns a field of its receiver, or a nil test
+// of one: the returned expression.
+func throughAccessor(v ssa.Value) ssa.Value {
+	call, ok := v.(*ssa.Call)
+	if !ok {
+		return v
+	}
+	g := call.Call.StaticCallee()
+	if g == nil || ir.Exported(g) || len(g.Blocks) != 1 || g.Signature.Recv() == nil || len(g.Params) != 1 || g.Signature.Results().Len() != 1 {
+		return v
+	}
+	var ret *ssa.Return
+	for _, ins := range g.Blocks[0].Instrs {
+		switch x := ins.(type) {
+		case *ssa.Return:
+			ret = x
+		case *ssa.FieldAddr, *ssa.UnOp, *ssa.BinOp, *ssa.DebugRef, *ssa.Alloc, *ssa.Field:
+		case *ssa.Store:
+			if _, isAl := x.Addr.(*ssa.Alloc); !isAl {
+				return v
+			}
+		default:
+			return v
+		}
+	}
+	if ret == nil || len(ret.Results) != 1 {
+		return v
+	}
+	r := ret.Results[0]
+	if _, ok := LoadPath(r); ok {
+		return r
+	}
+	if x, _, isCmp := ir.NilCompare(r); isCmp {
+		if _, ok := LoadPath(x); ok {
+			return r
+		}
+	}
+	return v
 }
 
 // Visitor, when non-nil, is called with the state holding just before ins.
